@@ -31,6 +31,7 @@ type e3Shape struct {
 	Gen      bool   // has generates
 	Status   bool   // has status
 	Prompt   bool   // has prompt
+	Silent   string // "" | task | cmd | taskfile : where silent: true is put (dry runs must not execute silenced commands)
 	NCmds    int
 	TaskName string // CLI name of the task under test
 	TaskVar  string // NAME=value passed with the task under test ("" = none)
@@ -79,6 +80,9 @@ func (s e3Shape) render() map[string]string {
 				cmd += ` && mkdir -p out && printf g > out/gen.txt`
 			}
 			fmt.Fprintf(&c, "      - cmd: %s\n", yamlq(cmd))
+			if s.Silent == "cmd" && name == "tut" {
+				c.WriteString("        silent: true\n")
+			}
 		}
 		return c.String()
 	}
@@ -100,6 +104,9 @@ func (s e3Shape) render() map[string]string {
 		return t.String()
 	}
 	b.WriteString("version: '3'\n")
+	if s.Silent == "taskfile" {
+		b.WriteString("silent: true\n")
+	}
 	local := "tut"
 	switch s.Shape {
 	case "ns":
@@ -119,6 +126,9 @@ func (s e3Shape) render() map[string]string {
 		}
 		if s.Prompt {
 			w.WriteString("    prompt: 'really?'\n")
+		}
+		if s.Silent == "task" {
+			w.WriteString("    silent: true\n")
 		}
 		if s.Shape == "deps" {
 			w.WriteString("    deps: [dep1]\n")
@@ -679,7 +689,7 @@ func (st *e3State) step(op e3Op, rng *rand.Rand, part *h.Partial) []e3Verdict {
 			observed = "success"
 		case r.Exit == 205 && n == 0:
 			observed = "declined"
-		case op.Kind == "run-cancel" && n == 0 && strings.Contains(r.Stderr, "is up to date"):
+		case op.Kind == "run-cancel" && n == 0 && (strings.Contains(r.Stderr, "is up to date") || expectSkip):
 			observed = "skipped"
 		case op.Kind == "run-cancel":
 			observed = "cancelled"
@@ -853,6 +863,7 @@ func e3RandomShape(rng *rand.Rand) e3Shape {
 		Status: rng.Intn(4) == 0,
 		Prompt: rng.Intn(5) == 0,
 		NCmds:  2 + rng.Intn(3),
+		Silent: []string{"", "", "", "task", "cmd"}[rng.Intn(5)],
 	}
 	s.fixNames()
 	return s
@@ -1093,7 +1104,7 @@ func runE3(id string, start time.Time) int {
 							i++
 							continue
 						}
-						s := e3Shape{Method: method, Glob: 0, Shape: shape, NCmds: 2, Gen: i%2 == 0, Status: i%3 == 0}
+						s := e3Shape{Method: method, Glob: 0, Shape: shape, NCmds: 2, Gen: i%2 == 0, Status: i%3 == 0, Silent: []string{"", "task", "cmd"}[i%3]}
 						s.fixNames()
 						ops := append([]e3Op{}, skeleton[:pos]...)
 						ops = append(ops, e3Op{Kind: ro})
